@@ -17,6 +17,11 @@ CHECKS = {
          "Three cooperating exhaustive explorations. (model) TLC enumerates every reachable state of 3 most-general disciplined processes + 1 Byzantine process over rounds 0..1 (thorough: 0..2, capped) and checks Agreement; two weakened variants must violate it (sensitivity). (binding) the Go guard functions for prevote/precommit/decide are compared with TLC's outgoing action labels in every reachable model state. (local) BFS over all environment inputs (proposals, blocks, votes incl. equivocation, timeouts) to ONE real ConsensusState from the initial state and 8 scripted deeper states (locked, round-changed, commit-waiting ...), de-duplicated on a canonical digest of the real RoundState; every vote/commit the real node emits must be an enabled model action. (net) every execution of 3 real nodes + Byzantine proposer with <= 2 deviations (all pairs of Byzantine actions, every single scheduling deviation) checks agreement, the guards, proposer agreement and panics end to end. Right level: safety under all schedules/Byzantine behaviours is exactly what exhaustive state exploration decides; the model gives the all-interleavings argument, the implementation searches bind it to the code.",
          "Trusts TLC for the model. Bounds: 4 validators, equal power in symmetry-reduced searches (one unequal-power search in thorough), rounds 0..1 (0..2 in parts), height 1, depth 4-7 from each start state, <=2-3 deviations. Recover mode never triggered. Synchronous driver calls the same handleMsg/handleTimeout as receiveRoutine.",
          "5/C01"),
+ "C02": ("model_checking",
+         "exhaustive enumeration of Byzantine proposals (single and pairwise block corruptions x heights x rounds x node positions) against one real ConsensusState; two independent validity oracles",
+         "For heights 1..3, rounds 0..1 and every position of the correct node, the puppet proposer applies each of 65 corruptions (every header field, 19 previous-commit corruptions, 13 evidence corruptions, data-section and nil-component corruptions; all unordered pairs at height 2 round 0, thorough: everywhere) to the honest block, re-deriving dependent hashes, and proposes it to the REAL state machine. Oracle: a non-nil prevote/precommit only for blocks that pass the repository's ValidateBlock AND an independent predicate written from the property statement (math/big commit tally); the two oracles must agree on every block; then the other validators vote and the committed block must apply (no panic, no kill request, status advances). Right level: the quantifier is over proposer-constructible blocks, a finite product once fields take boundary values.",
+         "Application-level validity is kept true by a trivial in-memory app (consensus-level validation only); 4 equal validators; recover mode never triggered; restart after a failed apply is C13's subject.",
+         "5/C02"),
  "C16": ("model_checking",
          "exhaustive state x message product on the real reactor + state machine (boundary-value fields, signature modes, wrong channels, raw byte truncation/substitution), worker subprocesses under ulimit -v",
          "11 scripted consensus states (every step of height 1, round 1, height 2) x every hostile message of the alphabet (about 1800 typed messages: each field of Vote/Proposal/BlockPart/state-channel messages at boundary values x 5 signature modes, every message kind on every wrong channel; about 9700 raw byte strings: every truncation and every single-byte substitution from 11 values of 6 valid encodings); thorough adds all ordered pairs of consensus-relevant messages. Each case goes through ConsensusReactor.Receive as the p2p layer delivers it, then whatever was queued through handleMsg, then timeouts. Oracle: no panic or process death in the state machine; invalid messages leave the RoundState digest unchanged.",
